@@ -81,7 +81,6 @@ class Box:
         self.sends, self.recvs = [], []
         self.permanent = False
         self.toggled = False
-        self.after_blocking_failure = False   # a one-simcall blocking Comm (put_init()->wait(), Comm::send/recv) ended with an exception
         self.filters = False
         self.cause = None         # first point where the two-queue implementation of permanent receivers can leave the statement
 
@@ -111,6 +110,7 @@ class Result:
         self.after_timeout = False   # a wait_for()/get(timeout)/put(timeout) on a message-queue activity timed out earlier in the run
         self.after_matched_cancel = False   # a message-queue request was cancelled (and its handle released) after it had been matched
         self.toggled = False
+        self.after_blocking_failure = False   # a one-simcall blocking Comm (put_init()->wait(), Comm::send/recv) ended with an exception
 
     def count(self, k, n=1):
         self.counters[k] = self.counters.get(k, 0) + n
@@ -398,7 +398,20 @@ def replay(out, prop, ended=True):
                     res.stopped = "a put(timeout) timed out"
             elif st.startswith("fail") and op in ("putT", "getT") and "Timeout" in st:
                 for x in api_to.pop(kv.get("now"), []):
-                    w = withdraw(hs[x])
+                    hx = hs[x]
+                    if hx.peer is not None and not hx.cancel_hit and not hx.withdrawn and not res.stopped:
+                        # the 1e6 s timeout fires only when nothing else can happen: a request that the model matched waited all that time
+                        exp = hs[hx.peer]
+                        if hx.kind == "get":
+                            diverge(b, "%s:lost:%s" % (pfx(boxes[hx.box]), context(boxes[hx.box], hx, exp)),
+                                    "get(timeout=1e6 s) h=%d of actor %d on %s (posted line %d) timed out, i.e. nothing else could happen in the "
+                                    "simulation, although send %s (line %d) was pending and acceptable for it in request order"
+                                    % (hx.h, hx.actor, hx.box, hx.ln, exp.mid, exp.ln), ev["ln"])
+                        else:
+                            res.stopped = "a put(timeout=1e6 s) that the model had matched timed out"
+                            res.count("replays_cut_at_timeout_of_a_matched_put")
+                        continue
+                    w = withdraw(hx)
                     res.count("mailbox_api_timeouts_of_%s_requests" % w)
             elif st.startswith("fail"):
                 if op in ("putw", "getw", "putf", "getf", "bput", "bget"):
